@@ -257,7 +257,7 @@ func (c13) Shrink(pj json.RawMessage) []json.RawMessage {
 func setupAC(k *simunix.Kernel, p *ACPlan) {
 	k.Mkdir("/d0")
 	k.Mkdir("/d1")
-	for _, c := range p.Creators {
+	for _, c := range append(append([]Creator{}, p.Creators...), p.OldFiles...) {
 		if c.D != "d0" && c.D != "d1" {
 			k.Mkdir("/" + c.D)
 		}
@@ -638,8 +638,10 @@ func execACConc(p *ACPlan, pj []byte, tape *simrt.Tape, keepLog bool) harness.Ru
 			m := filesys.NewMemFs()
 			m.Mkdir("d0")
 			m.Mkdir("d1")
-			for _, c := range p.Creators {
-				if c.D != "d0" && c.D != "d1" {
+			made := map[string]bool{"d0": true, "d1": true}
+			for _, c := range append(append([]Creator{}, p.Creators...), p.OldFiles...) {
+				if !made[c.D] {
+					made[c.D] = true
 					m.Mkdir(c.D)
 				}
 			}
